@@ -66,11 +66,16 @@ inductive Res (α : Type)
   | panic
   deriving Repr
 
-/-- First occupied slot of `l`, whose head has slot index `i`. -/
-def firstSome : List (Option Peripheral) → Nat → Option (Nat × Peripheral)
-  | [], _ => none
-  | some p :: _, i => some (i, p)
-  | none :: r, i => firstSome r (i + 1)
+/-- `slots.iter().enumerate().skip(index).find_map(occupied)`: the first occupied slot at or behind
+`index`; `i` is the slot index of the head of `l`. -/
+def firstFrom : List (Option Peripheral) → Nat → Nat → Option (Nat × Peripheral)
+  | [], _, _ => none
+  | x :: r, i, index =>
+    if i < index then firstFrom r (i + 1) index
+    else
+      match x with
+      | some p => some (i, p)
+      | none => firstFrom r (i + 1) index
 
 /-- First free slot of `l`, whose head has slot index `i`. -/
 def firstNone : List (Option Peripheral) → Nat → Option Nat
@@ -78,20 +83,20 @@ def firstNone : List (Option Peripheral) → Nat → Option Nat
   | none :: _, i => some i
   | some _ :: r, i => firstNone r (i + 1)
 
-/-- `get_at_index_mut(index)`: the first occupied slot at or behind `index`
-(`.enumerate().skip(index).find_map(..)`), with the `u8::try_from(i).unwrap()` of the handle. -/
+/-- `get_at_index_mut(index)`: the first occupied slot at or behind `index`, with the
+`u8::try_from(i).unwrap()` of the handle. -/
 def getAtIndex (slots : List (Option Peripheral)) (index : Nat) : Res (Option (Nat × Peripheral)) :=
-  match firstSome (slots.drop index) index with
+  match firstFrom slots 0 index with
   | none => .ok none
   | some (i, p) => if i ≥ 256 then .panic else .ok (some (i, p))
 
 /-- `get_next_index(index)`: the *second* occupied slot at or behind `index`
 (`.skip(index).filter(occupied).nth(1)`). -/
 def getNextIndex (slots : List (Option Peripheral)) (index : Nat) : Res (Option Nat) :=
-  match firstSome (slots.drop index) index with
+  match firstFrom slots 0 index with
   | none => .ok none
   | some (i, _) =>
-    match firstSome (slots.drop (i + 1)) (i + 1) with
+    match firstFrom slots 0 (i + 1) with
     | none => .ok none
     | some (j, _) => if j ≥ 256 then .panic else .ok (some j)
 
@@ -166,6 +171,47 @@ def nextCycle (slots : List (Option Peripheral)) (index : Nat) : Res (Cycle × B
   | .ok (some n) => .ok (.dx n, false)
   | .ok none => .ok (.completed, true)
 
+/-- One iteration of the `loop` of `transmit_telegram` with `cycle_state = DataExchange(index)`. -/
+inductive Visit
+  /-- no peripheral at or behind `index` (F4 guard): cycle completed, turn ends -/
+  | empty (m : Master)
+  /-- the peripheral in slot `i` transmits -/
+  | send (i : Nat) (m : Master) (h : Header) (pdu : Bytes)
+  /-- the peripheral in slot `i` declines with an event (Offline): turn ends (F11) -/
+  | event (i : Nat) (m : Master)
+  /-- the peripheral in slot `i` declines and was the last one: cycle completed, turn ends -/
+  | last (i : Nat) (m : Master)
+  /-- the peripheral in slot `i` declines: on to the next one -/
+  | next (i : Nat) (m : Master)
+  | panic
+  deriving DecidableEq, Repr
+
+def Master.visit (fp : FdlParams) (m : Master) (index : Nat) : Visit :=
+  match getAtIndex m.slots index with
+  | .panic => .panic
+  | .ok none => .empty { m with cycle := .dx 0, lastEvents := { cycleCompleted := true } }
+  | .ok (some (i, p)) =>
+    match p.transmit fp m.op with
+    | .panic => .panic
+    | .send p' h pdu =>
+      .send i { m with slots := m.slots.set i (some p'), lastEvents := {} } h pdu
+    | .decline p' (some ev) =>
+      let slots' := m.slots.set i (some p')
+      match nextCycle slots' index with
+      | .panic => .panic
+      | .ok (c, done) =>
+        .event i { m with slots := slots', cycle := if done then .dx 0 else c,
+                          lastEvents := { cycleCompleted := done,
+                                          peripheral := some { index := i, address := p.address, ev := ev } } }
+    | .decline p' none =>
+      let slots' := m.slots.set i (some p')
+      match nextCycle slots' index with
+      | .panic => .panic
+      | .ok (c, done) =>
+        if done then
+          .last i { m with slots := slots', cycle := .dx 0, lastEvents := { cycleCompleted := true } }
+        else .next i { m with slots := slots', cycle := c }
+
 /-- The `loop` of `transmit_telegram` (`peripheral_event` is `None` throughout since c1ddc01). -/
 def Master.txLoop (fp : FdlParams) : Nat → Master → MTx
   | 0, _ => .hang
@@ -173,30 +219,13 @@ def Master.txLoop (fp : FdlParams) : Nat → Master → MTx
     match m.cycle with
     | .completed => .none { m with cycle := .dx 0, lastEvents := {} }
     | .dx index =>
-      match getAtIndex m.slots index with
+      match m.visit fp index with
       | .panic => .panic
-      | .ok none => .none { m with cycle := .dx 0, lastEvents := { cycleCompleted := true } }
-      | .ok (some (i, p)) =>
-        match p.transmit fp m.op with
-        | .panic => .panic
-        | .send p' h pdu =>
-          .send { m with slots := m.slots.set i (some p'), lastEvents := {} } h pdu
-        | .decline p' (some ev) =>
-          let slots' := m.slots.set i (some p')
-          match nextCycle slots' index with
-          | .panic => .panic
-          | .ok (c, done) =>
-            .none { m with slots := slots', cycle := if done then .dx 0 else c,
-                           lastEvents := { cycleCompleted := done,
-                                           peripheral := some { index := i, address := p.address, ev := ev } } }
-        | .decline p' none =>
-          let slots' := m.slots.set i (some p')
-          match nextCycle slots' index with
-          | .panic => .panic
-          | .ok (c, done) =>
-            if done then
-              .none { m with slots := slots', cycle := .dx 0, lastEvents := { cycleCompleted := true } }
-            else Master.txLoop fp fuel { m with slots := slots', cycle := c }
+      | .empty m' => .none m'
+      | .send _ m' h pdu => .send m' h pdu
+      | .event _ m' => .none m'
+      | .last _ m' => .none m'
+      | .next _ m' => Master.txLoop fp fuel m'
 
 /-- `transmit_telegram(now, fdl, tx, high_prio_only)`. -/
 def Master.transmit (fp : FdlParams) (now : Int) (hp : Bool) (m : Master) : MTx :=
